@@ -65,6 +65,10 @@ def run(rep, tier, seed):
             r_dir, _ = dir_rule(rnd, pd, d_arg, kinds=KINDS_PLAIN)
             pd.direction = rnd.choice([DI.UP, DI.DOWN, DI.BIDIRECTIONAL])
             case_compress(b, pd, r_dir, d_arg, klass='compress-direction-argument:' + stack)
+            # the value Bi itself as argument: only the descriptors marked Bi apply (it equals neither Up nor Dw)
+            from schc_util import ref_compress as _rc, n_pdesc as _npd, n_rule as _nr
+            if _rc(_npd(pd), _nr(r_dir), 'B') is not None:      # (where the Bi descriptors alone describe the packet's fields: elsewhere fields and descriptors misalign, outside the property)
+                case_compress(b, pd, r_dir, DI.BIDIRECTIONAL, klass='compress-direction-argument-bi:' + stack)
         if i % 3 == 2:
             # the packet was handed to the parser as a right-padded Buffer (UDP, SCTP and CoAP parsers accept it): byte-aligned fields then
             # come right-padded -- same bytes, the other side flag; the residues (LSB residues of any width above all) are the same bits
